@@ -135,6 +135,60 @@ inductive GoodRunCon (norm : Text → Text) : Text → List Op → Prop where
       ((∃ t', annotateText o.c o.replace o.skipExisting o.info t = .written t') → rendersCon o t = true) →
       GoodRunCon norm (stepText t o) os → GoodRunCon norm t (o :: os)
 
+/-! ### `--merge-copyrights` -/
+
+/-- the notices `--merge-copyrights` merges in this invocation: the requested ones and those of the old header block -/
+def mergePool (o : Op) (t : Text) : List Text :=
+  if (sectionsOf o.c o.replace t).2.1.isEmpty then o.info.cpr
+  else unionTexts o.info.cpr (extractRaw (sectionsOf o.c o.replace t).2.1).cpr
+
+/-- the years lint reads from a merged year range: its two ends, or the single year -/
+def endYears (ys : List Text) : List Text :=
+  match yearMin ys, yearMax ys with
+  | some lo, some hi => if yearVal lo == yearVal hi then [lo] else [lo, hi]
+  | _, _ => []
+
+/-- every merged line reads back (with the tool's own reader) its holder and the ends of its year range (decidable; the
+    driver evaluates it on every merging step).  This is C20's make-then-parse property for the merged lines. -/
+def mergeReadsBack (o : Op) (t : Text) : Bool :=
+  let parsed := parseLines Generated.endRe (mergePool o t)
+  parsed.all fun x =>
+    match searchLine (lineFor parsed x.1) with
+    | some m => m.statement == x.1 && parseYear m.year == endYears (yearsOf parsed x.1)
+    | none => false
+
+/-- the hypotheses of `C09_step_merge`: those of `C09_step` with `--merge-copyrights` given -/
+def stepGoodMerge (norm : Text → Text) (o : Op) (t : Text) : Prop :=
+  ∀ t', annotateText o.c o.replace o.skipExisting o.info t = .written t' →
+    o.c.normLic = norm ∧ (∀ x, norm (norm x) = norm x) ∧ o.c.merge = true ∧
+    styleOK o t = true ∧
+    NoExoticBreaks t ∧ noIgnoreStart t = true ∧ noIgnoreStart t' = true ∧ seamOK o t = true
+
+def stepGoodMergeB (o : Op) (t t' : Text) : Bool :=
+  o.c.merge && styleOK o t &&
+  decide (NoExoticBreaks t) && noIgnoreStart t && noIgnoreStart t' && seamOK o t
+
+/-- the holders (statements) the reader finds in a set of notices -/
+def holdersOf (cprs : List Text) : List Text := (parseLines Generated.endRe cprs).map (·.1)
+
+/-- the years the reader finds for a holder in a set of notices -/
+def yearsIn (cprs : List Text) (s : Text) : List Text := yearsOf (parseLines Generated.endRe cprs) s
+
+/-- the year `z` lies (numerically) between two years stated for the holder `s` -/
+def YearCovered (cprs : List Text) (s z : Text) : Prop :=
+  ∃ a ∈ yearsIn cprs s, ∃ b ∈ yearsIn cprs s, yearVal a ≤ yearVal z ∧ yearVal z ≤ yearVal b
+
+def yearCoveredB (cprs : List Text) (s z : Text) : Bool :=
+  (yearsIn cprs s).any fun a => (yearsIn cprs s).any fun b => decide (yearVal a ≤ yearVal z) && decide (yearVal z ≤ yearVal b)
+
+/-- every step is good: without `--merge-copyrights` as for `C09_history`, with it as for `C09_step_merge` and the merged
+    lines read back -/
+inductive GoodRunAny (norm : Text → Text) : Text → List Op → Prop where
+  | nil (t : Text) : GoodRunAny norm t []
+  | cons (t : Text) (o : Op) (os : List Op) :
+      (stepGoodFull norm o t ∨ (stepGoodMerge norm o t ∧ mergeReadsBack o t = true)) →
+      GoodRunAny norm (stepText t o) os → GoodRunAny norm t (o :: os)
+
 /-- contributors requested by the invocations of the history that succeeded -/
 def accumulatedCon : Text → List Op → List Text
   | _, [] => []
